@@ -105,6 +105,14 @@ func (this *partition) loadRaft(nodeIds []uint64) error {
 	this.raftMu.Lock()
 	defer this.raftMu.Unlock()
 
+	if this.raft != nil {
+		// Loaded already. The allocator looks at the replica set when it gets to a
+		// new partition; meanwhile a later catalogue entry may have added this node
+		// and loaded the group. A second group would run on the same log store and
+		// the first one would never be stopped.
+		return nil
+	}
+
 	var err error
 	this.raft, err = raft.NewRaftGroup(this.id, nodeIds, this.wal, this.raftTransport)
 	if err != nil {
